@@ -350,17 +350,22 @@ def run_graph_part(ctx):
     for c, a in zip(cases, inl):
         if not a.startswith("PROG "):
             continue
-        prog, mout = a[5:].rsplit(" ## ", 1)
+        prog, mout, lout, cout = a[5:].rsplit(" ## ", 3)
         toks = c[1].split(" ")
         k = int(toks[1][1:])
         real_out = c[2].split(" ## ")[-1]
         if not real_out.startswith("OUT "):
             continue
-        if mout != real_out:
-            model_inline_bad += 1
-            if model_inline_bad <= 5:
-                ctx.violation("c16-inline-model:" + c[0], "model: inlined program evaluates differently from the modular one",
-                              {"request": c[1], "modular": real_out, "inlined_model": mout, "program": prog})
+        # mout: modular evaluator on the inlined text; lout: lexical evaluator `evalL` on the inlined text;
+        # cout: `runLexical`, the closure form of the inlined program (subject of run_modules_eq_run_inlined)
+        for what, got_m in (("text/eval", mout), ("text/evalL", lout), ("closure-form/runLexical", cout)):
+            if got_m != real_out:
+                model_inline_bad += 1
+                if model_inline_bad <= 5:
+                    ctx.violation("c16-inline-model:%s:%s" % (what, c[0]),
+                                  "model: the inlined program (%s) evaluates differently from the modular one" % what,
+                                  {"request": c[1], "modular": real_out, "inlined_model": got_m, "program": prog},
+                                  broken=["JaqVerif.Props.C16.run_modules_eq_run_inlined"])
         single_in.append("%s\t%s\t%s" % (c[0], ",".join(toks[2:2 + k]), prog))
         want[c[0]] = (real_out, c[1], prog)
     res = ctx.harness(["c16", "single"], input="\n".join(single_in) + "\n", check=False)
